@@ -10,7 +10,7 @@ func init() {
 	Register(&Prop{
 		ID:    "C09",
 		Title: "Bid escrow is conserved: each escrowed token is refunded or paid to the seller",
-		Cases: func(t string) int { return tierN(t, 300, 6000) },
+		Cases: func(t string) int { return tierN(t, 300, 30000) },
 		Run:   runRnsHistory,
 		Rule: "case = one generated history of 20..32 rns messages by 4 accounts funded in two denominations (generator shared with C08: bids in ujkl and uatom, repeated bids by the same account on the same name with larger / smaller / equal / other-denomination / zero / negative / unaffordable amounts, bids on unregistered and expired names, cancels (also twice), accepts by owner / previous owner / stranger, transfers between bid and accept, registrations and purchases); " +
 			"oracle evaluations = one per delivered message plus one escrow-invariant evaluation after every message and every BeginBlock (rns module balance per denomination == sum of the parsed prices of AllBids; a cancel refunds exactly what the model's ledger says the bidder escrowed for that name; an accept pays the acceptor exactly that; the bid is gone afterwards; register / buy leave the module balance unchanged; bids appear, change and disappear only through Bid / CancelBid / AcceptBid on their own key); " +
